@@ -1462,6 +1462,43 @@ func runNyctAlerts(c *Ctx) {
 		scan(gp, 0)
 		c.Check(bad == "" && nFalse > 0, "ALRT", fn, "a priority is reported missing only when it is", p.pos(gp.Pos()), fmt.Sprintf("all %d `false` answers are under: no Mercury selector, no ':' in the sort order, or a tail that is not a number", nFalse), "the priority of an informed entity can be reported missing although the sort order carries one: "+bad+" (its effect is not mapped and a timetabled no-service alert is not skipped)")
 	}
+	// metadata is built only for an alert that carries the Mercury alert extension: every answer of buildMetadata
+	// other than a constant `false` lies under a proto.HasExtension(alert, E_MercuryAlert) that held. (GetExtension
+	// answers a typed nil for an absent extension, so a checked type assertion on its result is no such test: an
+	// alert without NYCT data would get a zero-valued description appended instead of passing through unchanged.)
+	{
+		fn := shortName(bm)
+		bad := ""
+		nTrue := 0
+		for _, blk := range bm.Blocks {
+			ret, ok := blk.Instrs[len(blk.Instrs)-1].(*ssa.Return)
+			if !ok || len(ret.Results) != 2 {
+				continue
+			}
+			check := func(flag ssa.Value, gs []string) {
+				if k, isC := flag.(*ssa.Const); isC {
+					if bv, _ := constBool(k); !bv {
+						return
+					}
+				} else if e := b.bind(flag); strings.Contains(e, "proto.HasExtension(") && strings.Contains(e, "E_MercuryAlert") {
+					nTrue++
+					return
+				}
+				nTrue++
+				if !(hasGuard(gs, "+", "proto.HasExtension(", "E_MercuryAlert") || hasGuard(gs, "-", "!proto.HasExtension(", "E_MercuryAlert")) {
+					bad = "the answer at " + p.ipos(ret) + " is not `false` under " + clip(strings.Join(gs, " "), 160)
+				}
+			}
+			if phi, isPhi := ret.Results[1].(*ssa.Phi); isPhi && phi.Block() == blk {
+				for i, e := range phi.Edges {
+					check(e, edgeGuardStrings(b, blk.Preds[i], blk))
+				}
+			} else {
+				check(ret.Results[1], guardStrings(b, blk))
+			}
+		}
+		c.Check(bad == "" && nTrue > 0, "ALRT", fn, "metadata is built only for an alert with the Mercury alert extension", p.pos(bm.Pos()), fmt.Sprintf("all %d answers other than `false` are under proto.HasExtension(alert, E_MercuryAlert)", nTrue), "metadata can be built for an alert that carries no NYCT data (GetExtension answers a typed nil for an absent extension; only HasExtension tells): "+bad)
+	}
 	// the informed entities of an elevator group are made here and only here: what is stored in InformedEntity on the
 	// elevator path is an empty list or the list itself extended by one fresh selector that has nothing but a stop id
 	for _, fs := range collectFieldStores(c.regionOf(ue), "proto.Alert") {
